@@ -152,4 +152,26 @@ def listingSites : List ListingSite :=
   [{ file := k! "__init__.py", func := k! "get_first_file", call := k! "path.rglob", isSorted := true, key := k! "", keyShape := k! "natural" },
    { file := k! "parser/base.py", func := k! "Parser.iter_source", call := k! "self.source.rglob", isSorted := true, key := k! "lambda p: (p.name, p.as_posix())", keyShape := k! "basename-then-path" }]
 
+/-- every call that reads or sets the process's working directory (Path.cwd, os.getcwd, os.chdir, abspath/realpath,
+.absolute(), .resolve()) or starts a child process without `cwd=`: (file, function, called expression) -/
+def cwdSites : List (Nat × Nat × Nat) :=
+  [(k! "__init__.py", k! "chdir", k! "Path.cwd"),
+   (k! "__init__.py", k! "chdir", k! "os.chdir"),
+   (k! "__init__.py", k! "generate", k! "input_.expanduser().resolve"),
+   (k! "__main__.py", k! "Config.validate_file", k! "Path(value).expanduser().resolve"),
+   (k! "__main__.py", k! "Config.validate_path", k! "Path(value).expanduser().resolve"),
+   (k! "__main__.py", k! "main", k! "Path.cwd"),
+   (k! "format.py", k! "CodeFormatter.__init__", k! "Path.cwd"),
+   (k! "format.py", k! "CodeFormatter.apply_ruff_lint", k! "subprocess.run"),
+   (k! "format.py", k! "CodeFormatter.apply_ruff_formatter", k! "subprocess.run"),
+   (k! "parser/base.py", k! "Parser.__init__", k! "source.absolute"),
+   (k! "parser/base.py", k! "Parser.__init__", k! "Path.cwd"),
+   (k! "parser/graphql.py", k! "GraphQLParser._get_context_source_path_parts", k! "self.base_path.joinpath(s.path).resolve"),
+   (k! "parser/jsonschema.py", k! "JsonSchemaParser._get_context_source_path_parts", k! "self.base_path.joinpath(s.path).resolve"),
+   (k! "reference.py", k! "ModelResolver.__init__", k! "Path.cwd"),
+   (k! "reference.py", k! "ModelResolver.current_base_path_context", k! "(self._base_path / base_path).resolve"),
+   (k! "reference.py", k! "ModelResolver.resolve_ref", k! "Path(self.current_base_path, file_path).resolve"),
+   (k! "reference.py", k! "ModelResolver.resolve_ref", k! "target_path.resolve"),
+   (k! "reference.py", k! "ModelResolver.is_after_load", k! "Path(self._base_path, file_part).resolve")]
+
 end Dcg.Gen.SetSites
